@@ -52,13 +52,23 @@ def run_cases(name: str, cases: Iterable, check_case: Callable[[Any], list], *, 
 class Check:
     """A bounded check: cases_fn(tier, rng) -> iterable of cases ; check_case(case) -> list of violated clauses."""
 
-    def __init__(self, name: str, cases_fn: Callable, check_case: Callable, rule: str, **kw):
+    def __init__(self, name: str, cases_fn: Callable, check_case: Callable, rule: str, shards: int = 1, **kw):
         self.name, self.cases_fn, self.check_case, self.rule, self.kw = name, cases_fn, check_case, rule, kw
+        self.shards = shards
 
-    def __call__(self, tier: str, seed: int) -> BoundedReport:
+    def __call__(self, tier: str, seed: int, shard: int = 0, nshards: int = 1) -> BoundedReport:
+        import itertools
         import random
         rng = random.Random(seed * 1000003 + sum(map(ord, self.name)))
         kw = dict(self.kw)
+        if nshards > 1:
+            all_cases = self.cases_fn(tier, rng)
+            cases = itertools.islice(all_cases, shard, None, nshards)
+            if callable(kw.get("time_budget_s")):
+                kw["time_budget_s"] = kw["time_budget_s"](tier)
+            if callable(kw.get("bounds")):
+                kw["bounds"] = kw["bounds"](tier)
+            return run_cases(self.name, cases, self.check_case, rule=self.rule, **kw)
         if callable(kw.get("time_budget_s")):
             kw["time_budget_s"] = kw["time_budget_s"](tier)
         if callable(kw.get("bounds")):
